@@ -200,7 +200,12 @@ func genSpec(r *hx.Rand) *Spec {
 	}
 	add("object", "Query", nil)
 	if r.Chance(1, 3) {
-		add("object", "Mutation", nil)
+		var mreq []string
+		if r.Chance(1, 8) {
+			// a gated root operation type: outside the domain in which the property holds (open finding F-13f)
+			mreq = []string{hx.Pick(r, g.feats)}
+		}
+		add("object", "Mutation", mreq)
 		g.spec.Mutation = "Mutation"
 	}
 	// unions first: their requirement must cover the members' (no conditional members)
